@@ -52,7 +52,33 @@ func (crashScen) Rule(string) string {
 	return "case = a cachehist history prefix (1-6 ops) ending in an invocation that is first run dry to list every crash point it passes (cache.init.*, run.task.before/after, task.cmd.before/after, run.dump.before/after) and every cache write with its length; then from the same disk snapshot the invocation is repeated once per crash point and once per byte prefix k of each cache write (quick: k in {0,1,len/2,len-1,len} plus 4 seeded; thorough: every k), dying there (or, for a third of the prefixes, returning ENOSPC/EIO), and twice per cache write dying with the complete new contents under a temporary-looking sibling name and cache.json untouched (a kill between write-temporary and rename); each followed by 2-3 continuations {edit/revert a dependency, nothing} + unforced runs, or {third content, run, back to what the killed run saw, run}. Histories may drop stray files beside cache.json. Oracle: in the continuation every reported skip is legal w.r.t. last[] updated with the tasks that completed before the kill; a failing continuation mentions the cache. distinct_nontrivial = distinct (crash site or tear class, tasks completed before the kill, continuation shape, outcome) tuples."
 }
 
+// genBigCrashCase: scale variant. 50-70 tasks with one dependency file each, all run once in the prefix, so that
+// the cache file is larger than a memory page / disk block; then one input is edited and a run of that one task is
+// killed everywhere; the continuations revert the edit.
+func genBigCrashCase(r *Rng) *CrashCase {
+	c := &CrashCase{Disk: map[string]string{}, Sched: genSched(r), KSeed: r.Uint64()}
+	n := r.Range(50, 70)
+	var names []string
+	for i := 0; i < n; i++ {
+		name := "T_" + string(rune('a'+i/26)) + string(rune('a'+i%26))
+		f := fmt.Sprintf("big/x%02d.txt", i)
+		c.Prog.Tasks = append(c.Prog.Tasks, TaskDef{Name: name, NCmd: 1, Deps: []Dep{{"file", f}}})
+		c.Disk[f] = "1"
+		names = append(names, name)
+	}
+	victim := r.Intn(n)
+	vf := fmt.Sprintf("big/x%02d.txt", victim)
+	c.Prefix = []CHOp{{Op: "run", Tasks: names, JSON: true}, {Op: "write", Path: vf, Content: "2"}}
+	c.Run = CHOp{Op: "run", Tasks: []string{names[victim]}, JSON: r.Chance(1, 2)}
+	run := CHOp{Op: "run", Tasks: []string{names[victim]}, JSON: true}
+	c.Conts = [][]CHOp{{{Op: "write", Path: vf, Content: "1"}, run}, {run, run}}
+	return c
+}
+
 func (crashScen) Gen(r *Rng, cfg GenConfig) any {
+	if r.Chance(1, 250) {
+		return genBigCrashCase(r)
+	}
 	base := cachehist{}.Gen(r, GenConfig{Tier: cfg.Tier, Prop: "nowriters", Idx: cfg.Idx, NumCPU: cfg.NumCPU}).(*CHCase)
 	c := &CrashCase{Prog: base.Prog, Disk: base.Disk, Sched: base.Sched, AllK: cfg.Tier == "thorough" && r.Chance(1, 3), KSeed: r.Uint64()}
 	n := r.Range(1, 5)
